@@ -343,3 +343,169 @@ _run_c03 = run
 def run(ctx):  # noqa: F811
     _run_c03(ctx)
     r03_45(ctx)
+
+
+def r03_6(ctx):
+    """scalar-affine operations on a Linearization carry the metric"""
+    from ..util import cfg_of, known_atoms
+    m = ctx.model
+    L = m.cls(LIN, "Linearization")
+    ctx.rule("R03.6", "a requested metric is carried through scalar-affine arithmetic: in Linearization's arithmetic methods every "
+                      "return reachable under np.isscalar(<operand>) is `self`, a delegation to another method of self, or "
+                      "self.new(value, jacobian, metric) with a metric term built from self._metric (two-argument new() drops it)", floor=4)
+    for name, fi in sorted(L.methods.items()):
+        if not (name.startswith("__") or name in ("_myadd", "outer")) or name in ("__init__", "__neg__", "__repr__", "__getitem__"):
+            continue
+        params = fi.params()
+        if len(params) < 2:
+            continue
+        ctx.saw_func(fi)
+        cfg = cfg_of(fi)
+        for n in cfg.nodes:
+            if n.kind != "stmt" or not isinstance(n.ast, ast.Return) or n.ast.value is None:
+                continue
+            atoms = known_atoms(cfg, n.id)
+
+            def ev(t):
+                """truth of a guard under the assumption that the operand is a scalar (None = unknown)"""
+                if isinstance(t, ast.Call) and src(t.func).endswith("isscalar") and t.args and src(t.args[0]) in params[1:]:
+                    return True
+                if isinstance(t, ast.UnaryOp) and isinstance(t.op, ast.Not):
+                    r_ = ev(t.operand)
+                    return None if r_ is None else not r_
+                if isinstance(t, ast.BoolOp):
+                    vs = [ev(x) for x in t.values]
+                    if isinstance(t.op, ast.Or):
+                        return True if any(x is True for x in vs) else (False if all(x is False for x in vs) else None)
+                    return False if any(x is False for x in vs) else (True if all(x is True for x in vs) else None)
+                return None
+            vals = [(ev(t), pol) for t, pol in atoms]
+            if any(v_ is not None and v_ != pol for v_, pol in vals):
+                continue  # not reachable with a scalar operand
+            if not any(v_ is not None for v_, pol in vals):
+                continue  # no scalar case distinguished on this path
+            v = n.ast.value
+            key = f"{fi.key}::scalar operand: `{short(n.ast, 70)}` keeps the metric"
+            if src(v) in ("self", "NotImplemented"):
+                ctx.ok("R03.6", key, "returns the unchanged linearization", fi, n.ast)
+            elif isinstance(v, ast.Call) and isinstance(v.func, ast.Attribute) and src(v.func.value) in ("self", "(-self)") and v.func.attr != "new":
+                ctx.ok("R03.6", key, f"delegates to self.{v.func.attr}", fi, n.ast)
+            elif isinstance(v, ast.Call) and src(v.func) == "self.new":
+                met = v.args[2] if len(v.args) > 2 else next((k.value for k in v.keywords if k.arg == "metric"), None)
+                if met is None:
+                    ctx.bad("R03.6", key, "self.new(value, jacobian) without a metric: the metric of the operand is lost although "
+                                          "want_metric stays set", fi, n.ast)
+                else:
+                    from ..terms import inline_at
+                    rd = cfg.reaching_defs(params)
+                    e = inline_at(cfg, rd, n.id, met, depth=2)
+                    ctx.check("R03.6", key, True if "self._metric" in src(e) or "self.metric" in src(e) else None, f"metric term `{src(e)}`", fi, n.ast)
+            else:
+                ctx.und("R03.6", key, "return form not recognised", fi, n.ast)
+
+
+def r03_7(ctx):
+    """reductions: the operator applied to the Jacobian is the operator form of the method applied to the value"""
+    m = ctx.model
+    L = m.cls(LIN, "Linearization")
+    table = {"sum": ("ContractionOperator", None), "integrate": ("IntegrationOperator", ("ContractionOperator", "1")),
+             "vdot": ("VdotOperator", None)}
+    ctx.rule("R03.7", "linear reductions of a Linearization: sum pairs _val.sum(spaces) with ContractionOperator(target, spaces) on the "
+                      "Jacobian, integrate uses IntegrationOperator (= ContractionOperator(..., 1), the volume-weighted sum) for value "
+                      "AND Jacobian, vdot pairs _val.vdot(x) with VdotOperator(x) on the Jacobian - the derivative of a plain sum is "
+                      "not the derivative of an integral", floor=3)
+    for name, (opn, alt) in table.items():
+        fi = L.methods.get(name)
+        if fi is None:
+            ctx.und("R03.7", f"{L.key}::{name}", "method missing", L)
+            continue
+        ctx.saw_func(fi)
+        for r in walk_no_nested(fi.node):
+            if not isinstance(r, ast.Return) or r.value is None:
+                continue
+            v = r.value
+            key = f"{fi.key}::`{short(r, 60)}`: Jacobian through {opn}"
+
+            def is_op(c):
+                """call constructing the admissible linear operator"""
+                if not isinstance(c, ast.Call):
+                    return None
+                nm = call_name(c)
+                if nm == opn:
+                    return True
+                if alt and nm == alt[0]:
+                    pw = c.args[2] if len(c.args) > 2 else next((k.value for k in c.keywords if k.arg == "power"), None)
+                    return pw is not None and src(pw) == alt[1]
+                if nm in ("ContractionOperator", "IntegrationOperator", "VdotOperator"):
+                    return False
+                return None
+            if isinstance(v, ast.Call) and isinstance(v.func, ast.Call) and len(v.args) == 1 and src(v.args[0]) == "self":
+                # pure delegation Op(...)(self)
+                o = is_op(v.func)
+                ctx.check("R03.7", key, o, f"delegates to `{src(v.func)}`", fi, r)
+                continue
+            if isinstance(v, ast.Call) and src(v.func) == "self.new" and len(v.args) >= 2:
+                val, jac = v.args[0], v.args[1]
+                vm = call_name(val) if isinstance(val, ast.Call) else None
+                ops = [c for c in ast.walk(jac) if isinstance(c, ast.Call) and is_op(c) is not None]
+                if vm != name or not ops:
+                    ctx.und("R03.7", key, f"value `{src(val)}` / Jacobian `{src(jac)}` not recognised", fi, r)
+                    continue
+                bad = [c for c in ops if is_op(c) is False]
+                ctx.check("R03.7", key, not bad, f"value {src(val)}; Jacobian {src(jac)}" + (f": `{src(bad[0])}` is not the operator form of .{name}()" if bad else ""), fi, r)
+                continue
+            ctx.und("R03.7", key, "return form not recognised", fi, r)
+
+
+def r03_8(ctx):
+    """MultiField point-wise evaluation: value path and (value, derivative) path prepare the extra arguments per entry"""
+    m = ctx.model
+    MF = m.cls("nifty.cl.multi_field", "MultiField")
+    ctx.rule("R03.8", "MultiField.ptw and MultiField.ptw_with_deriv are siblings: each entry i is evaluated with the extra arguments "
+                      "prepared for that same entry (_prep_args(args, kwargs, i) with the loop's own index, Field-valued arguments "
+                      "indexed by it), so plain and linearised evaluation see the same function on every key", floor=3)
+    forms = {}
+    for name in ("ptw", "ptw_with_deriv"):
+        fi = MF.methods.get(name)
+        if fi is None:
+            ctx.und("R03.8", f"{MF.key}::{name}", "method missing", MF)
+            continue
+        ctx.saw_func(fi)
+        calls = [c for c in ast.walk(fi.node) if isinstance(c, ast.Call) and call_name(c) == "_prep_args"]
+        key = f"{fi.key}::extra arguments are prepared per entry"
+        if len(calls) != 1 or len(calls[0].args) != 3:
+            ctx.und("R03.8", key, f"{len(calls)} _prep_args calls", fi)
+            continue
+        idx = calls[0].args[2]
+        # the index must be the variable of the loop / comprehension that also selects the entry
+        loops = [lp for lp in ast.walk(fi.node) if isinstance(lp, (ast.For, ast.comprehension)) and any(x is calls[0] for x in ast.walk(lp if isinstance(lp, ast.For) else lp.iter))]
+        loops += [lp for lp in ast.walk(fi.node) if isinstance(lp, ast.For) and any(x is calls[0] for b in lp.body for x in ast.walk(b))]
+        lvars = {x.id for lp in loops for x in ast.walk(lp.target) if isinstance(x, ast.Name)}
+        if isinstance(idx, ast.Name) and idx.id in lvars:
+            ent = [c for c in ast.walk(fi.node) if isinstance(c, ast.Call) and call_name(c) == name and isinstance(c.func, ast.Attribute)]
+            same = len(ent) == 1 and src(ent[0].func.value) in (f"self._val[{idx.id}]",)
+            ctx.check("R03.8", key, True if same else None, f"{src(calls[0])}; entry call {src(ent[0]) if ent else None}", fi, calls[0])
+            forms[name] = src(calls[0])
+        elif isinstance(idx, ast.Constant):
+            ctx.bad("R03.8", key, f"`{src(calls[0])}`: every entry is evaluated with the arguments of entry {idx.value}", fi, calls[0])
+        else:
+            ctx.und("R03.8", key, f"index `{src(idx)}` is not a loop variable", fi, calls[0])
+    if len(forms) == 2:
+        ctx.check("R03.8", f"{MF.key}::ptw and ptw_with_deriv prepare the arguments identically", len(set(forms.values())) == 1, str(forms), MF)
+    pa = MF.methods.get("_prep_args")
+    if pa is not None:
+        ctx.saw_func(pa)
+        i = pa.params()[3] if len(pa.params()) > 3 else None
+        subs = [x for x in ast.walk(pa.node) if isinstance(x, ast.Subscript) and isinstance(x.value, ast.Attribute) and x.value.attr == "_val"]
+        ctx.check("R03.8", f"{pa.key}::Field-valued arguments are indexed by the entry index", bool(subs) and all(src(x.slice) == i for x in subs),
+                  str([src(x) for x in subs]), pa)
+
+
+_run_c03b = run
+
+
+def run(ctx):  # noqa: F811
+    _run_c03b(ctx)
+    r03_6(ctx)
+    r03_7(ctx)
+    r03_8(ctx)
